@@ -237,3 +237,14 @@ def recursion_reason(names):
     if set(_REC_CORE) <= ns and all(n.startswith("bemodel::energy::transmittance::") for n in ns):
         return list(RECURSION_OK.values())[0]
     return None
+
+
+# C06: rounded values that enter further arithmetic where the error they carry is bounded well below the two-decimal tolerance (the two sites where it
+# is not - U_w and U_bw of the basement-wall formula - are known findings)
+C06_ROUNDING_EXCEPTIONS = {
+    "c06.rounding|u_value_gnd_slab|psi_gnd_ext (rounded argument)":
+        "psi is rounded to three decimals and enters U = U_bf + 2 psi / B' linearly: the carried error is at most 2 x 0.0005 / B', below 0.001 for B' >= 1 m",
+    "c06.rounding|slab_char_dim|p (rounded local)":
+        "the exposed perimeter is rounded to 0.01 m and clamped to >= 0.01 before B' = A / (0.5 P): relative error 0.005 / P, i.e. below 0.1 % for any slab with P >= 5 m; "
+        "B' enters U through ln() and a quotient whose derivative is below 0.1 W/m2K per metre in that range",
+}
